@@ -67,7 +67,9 @@ def setL := "set i1 s61 i3 i7 i5"
 -- ... but `vo 0` is right while the variable holds 0 (object never `set`, or cleared by restore_object(file, 0))
 #guard ok ["so 1"] ["so 1", "file 232f6331362f6f626a2e630a766920300a766120300a766220300a766f20300a766320300a"]
 #guard bad [setL, "so 1"] ["so 0", "file none"] "save-object-failed"
-#guard bad [setL, "so 1"] ["so -1", "file none", "tmp-left-behind"] "tmp-left-behind"
+#guard bad [setL, "so 1"] ["so -1", "file unchanged", "tmp-left-behind"] "tmp-left-behind"
+#guard bad [setL, "so 1"] ["so -1", "file changed"] "save-file-changed-by-failed-save"
+#guard bad [setL, "so 1"] ["so -1", "file unchanged"] "save-object-failed"      -- refused although nothing is nested too deep
 
 /-! object level: what restore_object must leave -/
 def soL := ["so 1", "file 232f6331362f6f626a2e630a766920310a7661202261220a766220330a766f200a766320350a"]
